@@ -62,7 +62,7 @@ fforms! {
     DivVal: All; DivRef: All; DivMut: All; DivAssignVal: All; DivAssignRef: All; DivAssignMut: All;
     InhAdd: All; InhSub: All; InhMul: All;
     NegOp: All; InhNeg: All; InhSquare: All; InhInverse: All;
-    SumOwned: All; SumRef: All; ProductOwned: All; ProductRef: All;
+    SumOwned: All; SumRef: All; ProductOwned: All; ProductRef: All; ZeroizeThenAdd: All;
     FDouble: ArkOnly; FDoubleInPlace: ArkOnly; FNegInPlace: ArkOnly; FSquare: ArkOnly; FSquareInPlace: ArkOnly;
     FInverse: ArkOnly; FInverseInPlace: ArkOnly; FPow: ArkOnly; FSumOfProducts: ArkOnly; FFrobenius: ArkOnly;
     FZeroOne: ArkOnly; FBasePrime: ArkOnly; FBatchInverse: ArkOnly; FLegendreSqrt: ArkOnly;
@@ -180,11 +180,17 @@ pub fn model_step(f: &Fld, acc: &N, s: &Step) -> MOut {
             None => MOut::NoValue,
             Some(i) => MOut::Val(i),
         },
+        ZeroizeThenAdd => MOut::Val(x.clone()),
         SumOwned | SumRef => MOut::Val(items.iter().fold(N::zero(), |a, b| f.add(&a, b))),
         ProductOwned | ProductRef => MOut::Val(items.iter().fold(N::one(), |a, b| f.mul(&a, b))),
         FDouble | FDoubleInPlace => MOut::Val(f.add(acc, acc)),
         FPow | Power => MOut::Val(f.pow(acc, &crate::api::int_of_limbs(&s.limbs))),
-        FSumOfProducts => MOut::Val(f.add(&f.mul(acc, &x), &f.mul(&y, acc))),
+        FSumOfProducts => {
+            let n = 1 + (s.limbs.len() % 5);
+            let a = [acc.clone(), y.clone(), x.clone(), acc.clone(), y.clone()];
+            let b = [x.clone(), acc.clone(), x.clone(), y.clone(), y.clone()];
+            MOut::Val((0..n).fold(N::zero(), |t, i| f.add(&t, &f.mul(&a[i], &b[i]))))
+        }
         FFrobenius | FZeroOne | CtEq | FLegendreSqrt => MOut::Val(acc.clone()),
         FBasePrime => MOut::Val(f.mul(acc, &x)),
         FBatchInverse => MOut::Val(if x.is_zero() { N::zero() } else { acc.clone() }),
@@ -299,6 +305,13 @@ macro_rules! common_forms {
                 Some(v) => Out::Val(v),
                 None => Out::NoValue,
             }),
+            ZeroizeThenAdd => {
+                // zeroize() must leave the additive identity: 0 + x = x
+                use zeroize::Zeroize;
+                let mut a = acc;
+                a.zeroize();
+                Some(if a == <$T>::ZERO { Out::Val(a + x) } else { Out::Bad("zeroize() does not leave zero".into()) })
+            }
             // even item counts: exact-size iterators; odd: adaptors whose size_hint lower bound is 0
             SumOwned if $k % 2 == 0 => Some(Out::Val(items.clone().into_iter().sum())),
             SumOwned => Some(Out::Val(items.clone().into_iter().filter(|_| true).sum())),
@@ -354,7 +367,17 @@ macro_rules! ark_forms {
                 Some(if r { Out::Val(a) } else if a == acc { Out::NoValue } else { Out::Bad("inverse_in_place returned None but modified its operand".into()) })
             }
             FPow => Some(Out::Val(Field::pow(&acc, $limbs))),
-            FSumOfProducts => Some(Out::Val(<$T as Field>::sum_of_products(&[acc, y], &[x, acc]))),
+            FSumOfProducts => {
+                // 1..=5 terms (the callers inside arkworks always pass two)
+                let (a, b) = ([acc, y, x, acc, y], [x, acc, x, y, y]);
+                Some(Out::Val(match 1 + ($limbs.len() % 5) {
+                    1 => <$T as Field>::sum_of_products::<1>(&[a[0]], &[b[0]]),
+                    2 => <$T as Field>::sum_of_products::<2>(&[a[0], a[1]], &[b[0], b[1]]),
+                    3 => <$T as Field>::sum_of_products::<3>(&[a[0], a[1], a[2]], &[b[0], b[1], b[2]]),
+                    4 => <$T as Field>::sum_of_products::<4>(&[a[0], a[1], a[2], a[3]], &[b[0], b[1], b[2], b[3]]),
+                    _ => <$T as Field>::sum_of_products::<5>(&a, &b),
+                }))
+            }
             FFrobenius => {
                 let mut a = acc;
                 a.frobenius_map_in_place(3);
